@@ -239,7 +239,7 @@ fn mutate(rng: &mut Rng, p: &str) -> Vec<u8> {
 fn boundary_family(thorough: bool) -> Vec<Vec<u32>> {
     let mut v = Vec::new();
     let lens: Vec<usize> = if thorough { (3850..=3860).collect() } else { vec![3854, 3855, 3856] };
-    let highs: &[u32] = if thorough { &[0x10fe4f, 0x10ffff, 0x10f000, 0x10fe00] } else { &[0x10fe4f, 0x10ffff] };
+    let highs: &[u32] = &[0x10fe4f, 0x10ffff];
     for &n in &lens {
         for &h in highs {
             let mut s = vec![0x80u32; n];
@@ -438,7 +438,7 @@ fn run_corr(args: &Args) -> Report {
         let d = random_decode_input(&mut rng, 24);
         compare(&mut drv, &mut rep, "rnd-dec", &dec_req(&d));
     }
-    let n_long = if thorough { 400 } else { 24 };
+    let n_long = if thorough { 160 } else { 24 };
     for k in 0..n_long {
         let maxlen = if k % 4 == 0 { 3000 } else { 600 };
         let s = random_seq(&mut rng, maxlen);
